@@ -181,7 +181,7 @@ func (lineParser *LineParser) buildAttributesFromMarkers(markers []attributeMark
 			unclosedMarkers = append(unclosedMarkers, marker)
 		case tagTypeClose:
 			matchedOpenMarkerIndex := -1
-			for i := range unclosedMarkers {
+			for i := len(unclosedMarkers) - 1; i >= 0; i-- {
 				if unclosedMarkers[i].name == marker.name {
 					matchedOpenMarkerIndex = i
 					break
